@@ -614,6 +614,15 @@ func (c *Check) ruleBenignSentinelsHandled(rule string) {
 					r = u.X
 				}
 				if g, ok := r.(*ssa.Global); ok && g.Pkg == pb.Pkg && types.Implements(g.Type().(*types.Pointer).Elem(), errorIface()) {
+					// benign = the block is refused before it was added to the chain; a sentinel returned only
+					// after blocks.Add (a failure of the processing itself) rightly ends the processing
+					var addI []ssa.Instruction
+					for _, s := range callsTo(pb, "(*storage.BlockRepository).Add") {
+						addI = append(addI, s.Instr)
+					}
+					if after, _ := alwaysPrecededBy(ret, addI); len(addI) > 0 && after {
+						continue
+					}
 					sentinels[g] = true
 				}
 			}
@@ -1215,6 +1224,52 @@ func (c *Check) ruleTrustedOnlyFromTrustedSource(rule string) {
 			if len(params) == 0 {
 				c.Bad(rule, key, st.Pos(), "value flow", nil, "the trusted flag is set in a function that is not told whether the source is trusted")
 				continue
+			}
+			// `flag = flag || trusted` (and spellings through a local): every value merged into the store is the
+			// flag's own old value, the caller's argument, false, or true on an edge that comes from testing
+			// the old flag / behind the argument tested true
+			if phi, isPhi := st.Val.(*ssa.Phi); isPhi {
+				argGuard := boolEdge(func(v ssa.Value) bool {
+					for _, p := range params {
+						if stripConv(v) == ssa.Value(p) {
+							return true
+						}
+					}
+					return false
+				}, true)
+				all := true
+				for ei, e := range phi.Edges {
+					e = stripConv(e)
+					okE := false
+					if b, isC := isConstBool(e); isC {
+						if !b {
+							okE = true
+						} else {
+							pred := phi.Block().Preds[ei]
+							if iff, isIf := lastIf(pred); isIf && loadOfField(normCond(iff.Cond).V, f) != nil {
+								okE = true // came from `if old { … true … }`
+							} else if o, _ := mustPass(pred.Instrs[len(pred.Instrs)-1], argGuard); o {
+								okE = true
+							}
+						}
+					} else if loadOfField(e, f) != nil {
+						okE = true
+					} else {
+						for _, p := range params {
+							if e == ssa.Value(p) {
+								okE = true
+							}
+						}
+					}
+					if !okE {
+						all = false
+					}
+				}
+				if all {
+					c.Ok(rule, key+"(guarded)", st.Pos(), "value flow", "stores the old flag or the caller's trusted argument")
+					c.Touch(fn)
+					continue
+				}
 			}
 			guard := boolEdge(func(v ssa.Value) bool {
 				for _, p := range params {
